@@ -166,6 +166,12 @@ class Extract:
                     # modes without a/w/x contain 'r', and then `self._must_exist()` runs first, so the
                     # creation block (`if self._entry is None:`) is dead in those two variants
                     src = ast.unparse(n)
+                    want = ("lock = fs.lock.read if set(mode) & set('r+') == {'r'} else fs.mark_dirty() "
+                            "if set(mode) & set('awx') else fs.lock.write")
+                    assigns = [ast.unparse(a) for a in ast.walk(self.fn.node) if isinstance(a, (ast.Assign, ast.AugAssign, ast.AnnAssign))
+                               and 'lock' in {t.id for t in ast.walk(a) if isinstance(t, ast.Name) and isinstance(t.ctx, ast.Store)}]
+                    if assigns != [want]:
+                        self.fail(n, f"open(): the choice of lock is not the expected `{want}` (every creating mode a/w/x must mark the volume dirty): {assigns}")
                     if "if 'r' in mode:\n        self._must_exist()" not in src:
                         self.fail(n, "open(): expected `if 'r' in mode: self._must_exist()` at the top of the locked block")
                     def strip(items):
